@@ -378,13 +378,13 @@ Qed.
 Record slot_link (s : slot) (st : option fstatus) (ff nt : option hash) (fn : bool) : Prop := {
   sl_ff : forall h, ff = Some h -> st = Some (FFinalized h) \/ st = Some (FImplFinalized h);
   sl_nt : forall h, nt = Some h ->
-          st = Some (FNotarized h) \/ st = Some (FFinalized h) \/ st = Some (FImplFinalized h) \/ st = Some FImplSkipped;
+          st = Some (FNotarized h) \/ st = Some (FFinalized h) \/ (exists h', st = Some (FFinalized h') /\ ff = Some h') \/
+          (exists h', st = Some (FImplFinalized h')) \/ st = Some FImplSkipped;
   sl_fn : fn = true ->
           st = Some FFinalPendingNotar \/ (exists h, st = Some (FFinalized h)) \/ (exists h, st = Some (FImplFinalized h));
   sl_F : forall h, st = Some (FFinalized h) -> ff = Some h \/ (fn = true /\ (nt = Some h \/ (s = 0 /\ h = 0)));
   sl_P : st = Some FFinalPendingNotar -> fn = true;
-  sl_N : forall h, st = Some (FNotarized h) -> nt = Some h \/ (s = 0 /\ h = 0);
-  sl_0 : s = 0 -> st = Some (FNotarized 0) \/ st = Some (FFinalized 0) \/ st = Some (FImplFinalized 0)
+  sl_N : forall h, st = Some (FNotarized h) -> nt = Some h \/ (s = 0 /\ h = 0)
 }.
 Definition slot_link_ss (s : slot) (st : option fstatus) (ss : slot_state) : Prop :=
   slot_link s st (vff ss) (vnt ss) (vfn ss).
@@ -394,7 +394,9 @@ Record LINKx (m : option slot) (t : ftracker) (C : slot -> slot_state) : Prop :=
   lk_slot : forall s, ft_first t <= s -> slot_link_ss s (st_of t s) (C s);
   lk_dec : forall s, ft_first t <= s -> is_decided (st_of t s) = true -> s <= ft_highest t \/ m = Some s;
   lk_fh : ft_first t <= ft_highest t;
-  lk_hi : ft_highest t = 0 \/ exists h, st_of t (ft_highest t) = Some (FFinalized h)
+  lk_hi : ft_highest t = 0 \/ exists h, st_of t (ft_highest t) = Some (FFinalized h);
+  (* the genesis slot carries the genesis hash as long as nothing above it is finalized *)
+  lk_zero : ft_first t = 0 -> st_of t 0 = Some (FNotarized 0) \/ st_of t 0 = Some (FFinalized 0) \/ 0 < ft_highest t
 }.
 Definition LINK := LINKx None.
 
@@ -416,7 +418,7 @@ Inductive impl_tr (s : slot) : option fstatus -> option fstatus -> Prop :=
 | it_skipN : s <> 0 -> impl_tr s None (Some FImplSkipped)
 | it_skipNt h : s <> 0 -> impl_tr s (Some (FNotarized h)) (Some FImplSkipped)
 | it_finN h : impl_tr s None (Some (FImplFinalized h))
-| it_finNt h : impl_tr s (Some (FNotarized h)) (Some (FImplFinalized h))
+| it_finNt h h' : impl_tr s (Some (FNotarized h)) (Some (FImplFinalized h'))
 | it_finP h : impl_tr s (Some FFinalPendingNotar) (Some (FImplFinalized h)).
 
 Lemma impl_tr_trans s a b c : impl_tr s a b -> impl_tr s b c -> impl_tr s a c.
@@ -424,20 +426,17 @@ Proof. intros H1 H2. inversion H1; subst; inversion H2; subst; try assumption; c
 
 Lemma impl_tr_link s o o' ff nt fn : slot_link s o ff nt fn -> impl_tr s o o' -> slot_link s o' ff nt fn.
 Proof.
-  intros [A1 A2 A3 A4 A5 A6 A7] T. inversion T; subst; [split; assumption| | | | |].
+  intros [A1 A2 A3 A4 A5 A6] T. inversion T; subst; [split; assumption| | | | |].
   - split; intros; try discriminate; try contradiction.
     + specialize (A1 _ H0). sl_crush. + specialize (A2 _ H0). sl_crush. + specialize (A3 H0). sl_crush.
   - split; intros; try discriminate; try contradiction.
-    + specialize (A1 _ H0). sl_crush. + auto. + specialize (A3 H0). sl_crush.
+    + specialize (A1 _ H0). sl_crush. + auto 6. + specialize (A3 H0). sl_crush.
   - split; intros; try discriminate.
     + specialize (A1 _ H). sl_crush. + specialize (A2 _ H). sl_crush. + specialize (A3 H). sl_crush.
-    + specialize (A7 H). sl_crush.
   - split; intros; try discriminate.
-    + specialize (A1 _ H). sl_crush. + specialize (A2 _ H). sl_crush. + specialize (A3 H). sl_crush.
-    + specialize (A7 H). sl_crush.
+    + specialize (A1 _ H). sl_crush. + right. right. right. left. eauto. + specialize (A3 H). sl_crush.
   - split; intros; try discriminate.
     + specialize (A1 _ H). sl_crush. + specialize (A2 _ H). sl_crush. + eauto.
-    + specialize (A7 H). sl_crush.
 Qed.
 
 (* TR src t t': same watermark / highest slot / parent links; every slot's status moved by impl_tr, slots
@@ -519,7 +518,7 @@ Proof.
     apply N.eqb_eq in E. subst. symmetry. exact Hh. }
   fold (st_of t1 (fst b)) in H.
   destruct (st_of t1 (fst b)) as [[h| |h|h|]|] eqn:Old.
-  - destruct (h =? snd b) eqn:E; [|discriminate]. apply N.eqb_eq in E. subst h. apply (Cont _ (it_finNt _ _) H).
+  - apply (Cont _ (it_finNt _ _ _) H).
   - apply (Cont _ (it_finP _ _) H).
   - destruct (h =? snd b); [|discriminate]. injection H as <- _. apply Back. reflexivity.
   - destruct (h =? snd b); [|discriminate]. injection H as <- _. apply Back. reflexivity.
@@ -535,7 +534,7 @@ Proof. unfold slot_link_ss. intros -> -> ->. auto. Qed.
 Lemma LINKx_ext m t C C' :
   (forall s, ft_first t <= s -> ss_c (C' s) = ss_c (C s)) -> LINKx m t C -> LINKx m t C'.
 Proof.
-  intros E [A B D F]. split; auto. intros s Hs. destruct (view_ext _ _ (E s Hs)) as (V1 & V2 & V3).
+  intros E [A B D F Z]. split; auto. intros s Hs. destruct (view_ext _ _ (E s Hs)) as (V1 & V2 & V3).
   apply (view_eq_link s _ (C s)); auto.
 Qed.
 
@@ -548,6 +547,8 @@ Proof.
   - rewrite T1, T2. apply (lk_fh _ _ _ L).
   - rewrite T2. destruct (lk_hi _ _ _ L) as [Z|[h Hh]]; [left; exact Z|]. right. exists h.
     pose proof (T4 (ft_highest t)) as Hi. rewrite Hh in Hi. inversion Hi; subst. congruence.
+  - rewrite T1, T2. intros Hz. destruct (N.lt_ge_cases 0 src) as [Hlt|Hge]; [right; right; lia|].
+    rewrite (T5 0 Hge). apply (lk_zero _ _ _ L Hz).
 Qed.
 
 Lemma st_of_prune t s : st_of (ft_prune t) s = if ft_first (ft_prune t) <=? s then st_of t s else None.
@@ -570,6 +571,7 @@ Proof.
   - rewrite P2. exact Hfh.
   - rewrite P2. destruct (lk_hi _ _ _ L) as [Z|[h Hh]]; [left; exact Z|]. right. exists h.
     rewrite st_of_prune. apply N.leb_le in Hfh. rewrite Hfh. exact Hh.
+  - rewrite P2. intros Hz. rewrite st_of_prune, Hz. cbn [N.leb]. apply (lk_zero _ _ _ L). lia.
 Qed.
 
 (* the block being finalized already carries its Finalized status; the highest slot is raised, ancestors are
@@ -578,7 +580,7 @@ Lemma LINK_hfb t C b ev t' ev' :
   LINKx (Some (fst b)) t C -> ft_first t <= fst b -> st_of t (fst b) = Some (FFinalized (snd b)) ->
   ft_handle_finalized_block t b ev = Some (t', ev') -> LINK t' C.
 Proof.
-  intros [A B D F] Hb Hst H. unfold ft_handle_finalized_block in H. cbn [ft_parents] in H.
+  intros [A B D F Zr] Hb Hst H. unfold ft_handle_finalized_block in H. cbn [ft_parents] in H.
   set (t1 := mkFT (ft_status t) (ft_parents t) (N.max (fst b) (ft_highest t)) (ft_first t)) in *.
   assert (L1 : LINK t1 C).
   { split; cbn [ft_first ft_highest t1].
@@ -587,7 +589,8 @@ Proof.
     - lia.
     - destruct (N.max_spec (fst b) (ft_highest t)) as [[Hlt ->]|[Hle ->]].
       + destruct F as [Z|F]; [lia | right; exact F].
-      + right. exists (snd b). exact Hst. }
+      + right. exists (snd b). exact Hst.
+    - intros Hz. destruct (Zr Hz) as [Z0|[Z0|Z0]]; auto. right. right. lia. }
   destruct (blookup b (ft_parents t)) as [p|].
   - destruct (ft_handle_impl (ft_fuel t1) t1 (fst b) p _) as [[t2 ev2]|] eqn:HI; [|discriminate].
     injection H as <- _. apply LINK_prune. apply handle_impl_tr in HI.
@@ -602,9 +605,10 @@ Lemma LINKx_upd t C t' C' s v :
   (forall s', s' <> s -> ss_c (C' s') = ss_c (C s')) ->
   slot_link_ss s (Some v) (C' s) ->
   (forall h, st_of t s = Some (FFinalized h) -> v = FFinalized h) ->
+  (s = 0 -> v = FNotarized 0 \/ v = FFinalized 0 \/ 0 < ft_highest t) ->
   LINKx (Some s) t' C'.
 Proof.
-  intros L E1 E2 Hs St Hc Hl Hk. split.
+  intros L E1 E2 Hs St Hc Hl Hk Hz. split.
   - intros s' Hs'. rewrite E1 in Hs'. rewrite St. destruct (s' =? s) eqn:E.
     + apply N.eqb_eq in E. subst. exact Hl.
     + apply N.eqb_neq in E. destruct (view_ext _ _ (Hc s' E)) as (V1 & V2 & V3).
@@ -616,10 +620,13 @@ Proof.
   - rewrite E2. destruct (lk_hi _ _ _ L) as [Z|[h Hh]]; [left; exact Z|]. right. rewrite St.
     destruct (ft_highest t =? s) eqn:E; [|exists h; exact Hh].
     apply N.eqb_eq in E. rewrite E in Hh. exists h. rewrite (Hk h Hh). reflexivity.
+  - rewrite E1, E2, St. intros Z. destruct (0 =? s) eqn:E.
+    + apply N.eqb_eq in E. destruct (Hz (eq_sym E)) as [->|[->|H]]; auto.
+    + apply (lk_zero _ _ _ L Z).
 Qed.
 Lemma LINKx_close s t C : LINKx (Some s) t C -> (is_decided (st_of t s) = true -> s <= ft_highest t) -> LINK t C.
 Proof.
-  intros [A B D F] H. split; auto. intros s' Hs' Hd. left.
+  intros [A B D F Z] H. split; auto. intros s' Hs' Hd. left.
   destruct (B s' Hs' Hd) as [H1|H1]; [exact H1 | injection H1 as <-; apply H; exact Hd].
 Qed.
 
@@ -630,71 +637,66 @@ Lemma sl_fast s old ff nt fn h :
    old = Some (FImplFinalized h)) ->
   slot_link s (Some (FFinalized h)) (Some h) nt fn.
 Proof.
-  intros [A1 A2 A3 A4 A5 A6 A7] Ho. split; intros; try discriminate.
+  intros [A1 A2 A3 A4 A5 A6] Ho. split; intros; try discriminate.
   - left. congruence.
-  - specialize (A2 _ H). right. left. sl_crush.
+  - right. right. left. eauto.
   - right. left. eauto.
   - left. congruence.
-  - specialize (A7 H). sl_crush.
 Qed.
 Lemma sl_notar_new s old ff nt fn h :
   slot_link s old ff nt fn -> (old = None \/ old = Some (FNotarized h)) ->
   slot_link s (Some (FNotarized h)) ff (Some h) fn.
 Proof.
-  intros [A1 A2 A3 A4 A5 A6 A7] Ho. split; intros; try discriminate.
+  intros [A1 A2 A3 A4 A5 A6] Ho. split; intros; try discriminate.
   - specialize (A1 _ H). sl_crush.
   - left. congruence.
   - specialize (A3 H). sl_crush.
   - left. congruence.
-  - specialize (A7 H). sl_crush.
 Qed.
 Lemma sl_notar_keep s old ff nt fn h :
   slot_link s old ff nt fn ->
-  (old = Some (FFinalized h) \/ old = Some (FImplFinalized h) \/ old = Some FImplSkipped) ->
+  (old = Some (FFinalized h) \/ (exists h', old = Some (FImplFinalized h')) \/ old = Some FImplSkipped) ->
   slot_link s old ff (Some h) fn.
 Proof.
-  intros [A1 A2 A3 A4 A5 A6 A7] Ho. split; intros; auto.
-  - injection H as <-. sl_crush.
-  - specialize (A4 _ H). destruct Ho as [Ho|[Ho|Ho]]; try congruence.
+  intros [A1 A2 A3 A4 A5 A6] Ho. split; intros; auto.
+  - injection H as <-. destruct Ho as [Ho|[[h' Ho]|Ho]]; eauto 8.
+  - specialize (A4 _ H). destruct Ho as [Ho|[[h' Ho]|Ho]]; try congruence.
     assert (h0 = h) by congruence. subst h0. destruct A4 as [A4|[A4 [A4'|A4']]]; auto.
-  - destruct Ho as [Ho|[Ho|Ho]]; congruence.
+  - destruct Ho as [Ho|[[h' Ho]|Ho]]; congruence.
 Qed.
 Lemma sl_notar_fin s ff nt fn h :
   slot_link s (Some FFinalPendingNotar) ff nt fn -> slot_link s (Some (FFinalized h)) ff (Some h) fn.
 Proof.
-  intros [A1 A2 A3 A4 A5 A6 A7]. split; intros; try discriminate.
+  intros [A1 A2 A3 A4 A5 A6]. split; intros; try discriminate.
   - specialize (A1 _ H). sl_crush.
   - right. left. congruence.
   - right. left. eauto.
   - right. split; [apply A5; reflexivity|]. left. congruence.
-  - specialize (A7 H). sl_crush.
 Qed.
 Lemma sl_final_new s old ff nt fn :
   slot_link s old ff nt fn -> (old = None \/ old = Some FFinalPendingNotar) ->
   slot_link s (Some FFinalPendingNotar) ff nt true.
 Proof.
-  intros [A1 A2 A3 A4 A5 A6 A7] Ho. split; intros; try discriminate; auto.
+  intros [A1 A2 A3 A4 A5 A6] Ho. split; intros; try discriminate; auto.
   - specialize (A1 _ H). sl_crush.
   - specialize (A2 _ H). sl_crush.
-  - specialize (A7 H). sl_crush.
 Qed.
 Lemma sl_final_keep s old ff nt fn :
   slot_link s old ff nt fn -> ((exists h, old = Some (FFinalized h)) \/ (exists h, old = Some (FImplFinalized h))) ->
   slot_link s old ff nt true.
 Proof.
-  intros [A1 A2 A3 A4 A5 A6 A7] Ho. split; intros; auto.
+  intros [A1 A2 A3 A4 A5 A6] Ho. split; intros; auto.
   all: try (specialize (A4 _ H); destruct A4 as [A4|[A4 A4']]; auto; fail).
   all: try (destruct Ho as [[h0 Ho]|[h0 Ho]]; eauto; congruence).
 Qed.
 Lemma sl_final_fin s ff nt fn h :
   slot_link s (Some (FNotarized h)) ff nt fn -> slot_link s (Some (FFinalized h)) ff nt true.
 Proof.
-  intros [A1 A2 A3 A4 A5 A6 A7]. split; intros; try discriminate.
+  intros [A1 A2 A3 A4 A5 A6]. split; intros; try discriminate.
   - specialize (A1 _ H). sl_crush.
   - specialize (A2 _ H). right. left. sl_crush.
   - right. left. eauto.
   - injection H as <-. right. split; [reflexivity|]. apply A6. reflexivity.
-  - specialize (A7 H). sl_crush.
 Qed.
 
 Definition updC (C : slot -> slot_state) (s : slot) (ss : slot_state) : slot -> slot_state :=
@@ -709,6 +711,14 @@ Proof. intros L Hs. apply (LINKx_ext None t C); [|exact L]. intros x Hx. rewrite
 
 Lemma st_of_set2 t s a v s' : st_of (ft_set_status (ft_set_status t s a) s v) s' = if s' =? s then Some v else st_of t s'.
 Proof. rewrite !st_of_set. destruct (s' =? s); reflexivity. Qed.
+
+(* the genesis-slot clause of LINKx_upd *)
+Ltac zt :=
+  let Zs := fresh "Zs" in let Z := fresh "Z" in
+  intros Zs; subst;
+  match goal with L : LINK ?t _ |- _ => destruct (lk_zero _ _ _ L ltac:(lia)) as [Z|[Z|Z]]; [| |auto] end;
+  match goal with Old : st_of _ 0 = Some _ |- _ => lazymatch Old with Z => fail | _ => rewrite Old in Z end | Old : st_of _ 0 = None |- _ => rewrite Old in Z end;
+  try discriminate; try (inversion Z; subst); auto.
 
 Lemma LINK_fast t C s h c t' ev :
   LINK t C -> c_kind c = CFastFinal h -> ft_mark_fast_finalized t (s, h) = Some (t', ev) ->
@@ -728,7 +738,9 @@ Proof.
     - intros s'. apply st_of_set.
     - intros s' Hn. unfold C'. rewrite updC_other by exact Hn. reflexivity.
     - unfold slot_link_ss, C'. rewrite updC_same, V1, V2, V3. rewrite Eo in Sl. exact (sl_fast s old _ _ _ h Sl Ho).
-    - intros h0 Hh0. rewrite Hh0 in Eo. subst old. destruct Ho as [Ho|[Ho|[Ho|[Ho|Ho]]]]; congruence. }
+    - intros h0 Hh0. rewrite Hh0 in Eo. subst old. destruct Ho as [Ho|[Ho|[Ho|[Ho|Ho]]]]; congruence.
+    - intros Zs. subst s. destruct (lk_zero _ _ _ L ltac:(lia)) as [Z|[Z|Z]]; [| |auto]; rewrite Eo in Z;
+        destruct Ho as [Ho|[Ho|[Ho|[Ho|Ho]]]]; rewrite Ho in Z; try discriminate; injection Z as ->; auto. }
   assert (Hfb : forall old, st_of t s = old ->
             (old = None \/ old = Some (FNotarized h) \/ old = Some FFinalPendingNotar) ->
             ft_handle_finalized_block (ft_set_status t s (FFinalized h)) (s, h) fe_empty = Some (t', ev) -> LINK t' C').
@@ -759,28 +771,29 @@ Proof.
             (forall s', st_of t1 s' = if s' =? s then Some v else st_of t s') ->
             slot_link s (Some v) (vff (C s)) (Some h) (vfn (C s)) ->
             (forall h0, st_of t s = Some (FFinalized h0) -> v = FFinalized h0) ->
+            (s = 0 -> v = FNotarized 0 \/ v = FFinalized 0 \/ 0 < ft_highest t) ->
             LINKx (Some s) t1 C').
-  { intros t1 v E1 E2 St Hl Hk. apply (LINKx_upd t C t1 C' s v L); auto.
+  { intros t1 v E1 E2 St Hl Hk Hz. apply (LINKx_upd t C t1 C' s v L); auto.
     - intros s' Hn. unfold C'. rewrite updC_other by exact Hn. reflexivity.
     - unfold slot_link_ss, C'. rewrite updC_same, V1, V2, V3. exact Hl. }
   destruct (st_of t s) as [[h0| |h0|h0|]|] eqn:Old.
   - destruct (h0 =? h) eqn:E; [|discriminate]. apply N.eqb_eq in E. subst h0. injection H as <- _.
     apply (LINKx_close s); [|rewrite st_of_set, N.eqb_refl; discriminate].
-    apply (Up _ (FNotarized h)); try reflexivity; [intros s'; apply st_of_set | apply (sl_notar_new s _ _ _ _ h Sl); auto | discriminate].
-  - apply (LINK_hfb _ C' (s, h) fe_empty t' ev (Up (ft_set_status (ft_set_status t s (FNotarized h)) s (FFinalized h)) (FFinalized h) eq_refl eq_refl (st_of_set2 t s _ _) (sl_notar_fin s _ _ _ h Sl) ltac:(discriminate)));
+    apply (Up _ (FNotarized h)); try reflexivity; [intros s'; apply st_of_set | apply (sl_notar_new s _ _ _ _ h Sl); auto | discriminate | zt].
+  - apply (LINK_hfb _ C' (s, h) fe_empty t' ev (Up (ft_set_status (ft_set_status t s (FNotarized h)) s (FFinalized h)) (FFinalized h) eq_refl eq_refl (st_of_set2 t s _ _) (sl_notar_fin s _ _ _ h Sl) ltac:(discriminate) ltac:(zt)));
       cbn [fst snd]; auto. rewrite st_of_set2, N.eqb_refl. reflexivity.
   - destruct (h0 =? h) eqn:E; [|discriminate]. apply N.eqb_eq in E. subst h0. injection H as <- _.
     apply (LINKx_close s); [|intros _; apply (LINK_dec _ _ _ L Lt); rewrite Old; reflexivity].
-    apply (Up _ (FFinalized h)); try reflexivity; [intros s'; apply st_of_set2 | apply (sl_notar_keep s _ _ _ _ h Sl); auto | congruence].
-  - destruct (h0 =? h) eqn:E; [|discriminate]. apply N.eqb_eq in E. subst h0. injection H as <- _.
-    apply (LINKx_close s); [|intros _; apply (LINK_dec _ _ _ L Lt); rewrite Old; reflexivity].
-    apply (Up _ (FImplFinalized h)); try reflexivity; [intros s'; apply st_of_set2 | apply (sl_notar_keep s _ _ _ _ h Sl); auto | discriminate].
+    apply (Up _ (FFinalized h)); try reflexivity; [intros s'; apply st_of_set2 | apply (sl_notar_keep s _ _ _ _ h Sl); auto | congruence | zt].
   - injection H as <- _.
     apply (LINKx_close s); [|intros _; apply (LINK_dec _ _ _ L Lt); rewrite Old; reflexivity].
-    apply (Up _ FImplSkipped); try reflexivity; [intros s'; apply st_of_set2 | apply (sl_notar_keep s _ _ _ _ h Sl); auto | discriminate].
+    apply (Up _ (FImplFinalized h0)); try reflexivity; [intros s'; apply st_of_set2 | apply (sl_notar_keep s _ _ _ _ h Sl); eauto | discriminate | zt].
+  - injection H as <- _.
+    apply (LINKx_close s); [|intros _; apply (LINK_dec _ _ _ L Lt); rewrite Old; reflexivity].
+    apply (Up _ FImplSkipped); try reflexivity; [intros s'; apply st_of_set2 | apply (sl_notar_keep s _ _ _ _ h Sl); auto | discriminate | zt].
   - injection H as <- _.
     apply (LINKx_close s); [|rewrite st_of_set, N.eqb_refl; discriminate].
-    apply (Up _ (FNotarized h)); try reflexivity; [intros s'; apply st_of_set | apply (sl_notar_new s _ _ _ _ h Sl); auto | discriminate].
+    apply (Up _ (FNotarized h)); try reflexivity; [intros s'; apply st_of_set | apply (sl_notar_new s _ _ _ _ h Sl); auto | discriminate | zt].
 Qed.
 
 Lemma LINK_final t C s c t' ev :
@@ -797,36 +810,38 @@ Proof.
             (forall s', st_of t1 s' = if s' =? s then Some v else st_of t s') ->
             slot_link s (Some v) (vff (C s)) (vnt (C s)) true ->
             (forall h0, st_of t s = Some (FFinalized h0) -> v = FFinalized h0) ->
+            (s = 0 -> v = FNotarized 0 \/ v = FFinalized 0 \/ 0 < ft_highest t) ->
             LINKx (Some s) t1 C').
-  { intros t1 v E1 E2 St Hl Hk. apply (LINKx_upd t C t1 C' s v L); auto.
+  { intros t1 v E1 E2 St Hl Hk Hz. apply (LINKx_upd t C t1 C' s v L); auto.
     - intros s' Hn. unfold C'. rewrite updC_other by exact Hn. reflexivity.
     - unfold slot_link_ss, C'. rewrite updC_same, V1, V2, V3. exact Hl. }
   destruct (st_of t s) as [[h0| |h0|h0|]|] eqn:Old.
-  - apply (LINK_hfb _ C' (s, h0) fe_empty t' ev (Up (ft_set_status (ft_set_status t s FFinalPendingNotar) s (FFinalized h0)) (FFinalized h0) eq_refl eq_refl (st_of_set2 t s _ _) (sl_final_fin s _ _ _ h0 Sl) ltac:(discriminate)));
+  - apply (LINK_hfb _ C' (s, h0) fe_empty t' ev (Up (ft_set_status (ft_set_status t s FFinalPendingNotar) s (FFinalized h0)) (FFinalized h0) eq_refl eq_refl (st_of_set2 t s _ _) (sl_final_fin s _ _ _ h0 Sl) ltac:(discriminate) ltac:(zt)));
       cbn [fst snd]; auto. rewrite st_of_set2, N.eqb_refl. reflexivity.
   - injection H as <- _.
     apply (LINKx_close s); [|rewrite st_of_set, N.eqb_refl; discriminate].
-    apply (Up _ FFinalPendingNotar); try reflexivity; [intros s'; apply st_of_set | apply (sl_final_new s _ _ _ _ Sl); auto | discriminate].
+    apply (Up _ FFinalPendingNotar); try reflexivity; [intros s'; apply st_of_set | apply (sl_final_new s _ _ _ _ Sl); auto | discriminate | zt].
   - injection H as <- _.
     apply (LINKx_close s); [|intros _; apply (LINK_dec _ _ _ L Lt); rewrite Old; reflexivity].
-    apply (Up _ (FFinalized h0)); try reflexivity; [intros s'; apply st_of_set2 | apply (sl_final_keep s _ _ _ _ Sl); eauto | congruence].
+    apply (Up _ (FFinalized h0)); try reflexivity; [intros s'; apply st_of_set2 | apply (sl_final_keep s _ _ _ _ Sl); eauto | congruence | zt].
   - injection H as <- _.
     apply (LINKx_close s); [|intros _; apply (LINK_dec _ _ _ L Lt); rewrite Old; reflexivity].
-    apply (Up _ (FImplFinalized h0)); try reflexivity; [intros s'; apply st_of_set2 | apply (sl_final_keep s _ _ _ _ Sl); eauto | discriminate].
+    apply (Up _ (FImplFinalized h0)); try reflexivity; [intros s'; apply st_of_set2 | apply (sl_final_keep s _ _ _ _ Sl); eauto | discriminate | zt].
   - discriminate.
   - injection H as <- _.
     apply (LINKx_close s); [|rewrite st_of_set, N.eqb_refl; discriminate].
-    apply (Up _ FFinalPendingNotar); try reflexivity; [intros s'; apply st_of_set | apply (sl_final_new s _ _ _ _ Sl); auto | discriminate].
+    apply (Up _ FFinalPendingNotar); try reflexivity; [intros s'; apply st_of_set | apply (sl_final_new s _ _ _ _ Sl); auto | discriminate | zt].
 Qed.
 
 Lemma LINK_same_st t t' C :
   LINK t C -> ft_first t' = ft_first t -> ft_highest t' = ft_highest t -> (forall s, st_of t' s = st_of t s) -> LINK t' C.
 Proof.
-  intros [A B D F] E1 E2 St. split.
+  intros [A B D F Z] E1 E2 St. split.
   - intros s Hs. rewrite St. apply A. lia.
   - intros s Hs Hd. rewrite St in Hd. rewrite E2. apply B; [lia | exact Hd].
   - lia.
   - rewrite E2, St. exact F.
+  - rewrite E1, E2, St. exact Z.
 Qed.
 
 Lemma LINK_parent t C b p t' ev : LINK t C -> ft_add_parent t b p = Some (t', ev) -> LINK t' C.
@@ -883,10 +898,11 @@ Proof.
       destruct (s =? 0) eqn:E.
       * apply N.eqb_eq in E. subst. split; intros; try discriminate; auto.
         injection H as <-. auto.
-      * apply N.eqb_neq in E. split; intros; try discriminate; contradiction.
+      * apply N.eqb_neq in E. split; intros; try discriminate; try contradiction.
     + intros s _. unfold st_of, ft_init. cbn [ft_status alookup]. destruct (s =? 0); discriminate.
     + lia.
     + left. reflexivity.
+    + intros _. left. reflexivity.
 Qed.
 
 (* which tracker operation add_valid_cert issues *)
@@ -1334,23 +1350,50 @@ Proof.
   assert (Hfirst : forall c, In c (bundle_certs p) -> ft_first (p_ft p) <= c_slot c).
   { intros c Hc. destruct (bundle_certs_held p c I Hc) as [_ Hle].
     pose proof (lk_fh _ _ _ (inv_link _ I)). unfold finalized_slot in *. lia. }
+  assert (Hle : forall c, In c (bundle_certs p) -> finalized_slot p <= c_slot c).
+  { intros c Hc. apply (bundle_certs_held p c I Hc). }
+  (* a notarization certificate of the bundle for the finalized slot: that slot has no fast-finalization certificate *)
+  assert (NoFF : forall c a, In c (bundle_certs p) -> c_kind c = CNotar a -> c_slot c = finalized_slot p ->
+            vff (p_ss p (finalized_slot p)) = None).
+  { intros c a Hc Kc Sc. destruct I as [K W L].
+    assert (Hg : In c (get_final_certs p (finalized_slot p))).
+    { unfold bundle_certs in Hc. apply in_app_or in Hc. destruct Hc as [Hc|Hc]; [exact Hc|]. exfalso.
+      apply in_flat_map in Hc. destruct Hc as ([k ss] & Hk & Hin). cbn [snd] in Hin.
+      apply (later_slots_spec p k ss K) in Hk. destruct Hk as [Hlt Hl]. apply state_is_entry in Hl. subst ss.
+      destruct (W k) as (_ & Sl & _). rewrite (Sl c Hin) in Sc. lia. }
+    rewrite get_final_certs_ss in Hg. unfold vff.
+    destruct (ce_ff (ss_c (p_ss p (finalized_slot p)))) as [c0|] eqn:Ef; [|reflexivity].
+    destruct Hg as [<-|[]]. destruct (W (finalized_slot p)) as ((_ & K2 & _) & _). destruct (K2 c0 Ef) as [h' Kh]. congruence. }
+  assert (FFatF : forall c a, In c (bundle_certs p) -> c_kind c = CFastFinal a -> c_slot c = finalized_slot p).
+  { intros c a Hc Kc. destruct (Hv c Hc) as [[A1 _ _ _ _ _] V1]. rewrite Kc in V1. specialize (A1 _ V1).
+    assert (c_slot c <= finalized_slot p); [|specialize (Hle c Hc); lia].
+    apply (LINK_dec _ _ _ (inv_link _ I) (Hfirst c Hc)). destruct A1 as [-> | ->]; reflexivity. }
   split.
   - intros c1 c2 h1 h2 H1 H2 Es F1 F2. destruct (Hv c1 H1) as [S1 V1]. destruct (Hv c2 H2) as [S2 V2].
-    rewrite <- Es in S2, V2. clear S2. destruct S1 as [A1 A2 _ _ _ _ _]. unfold fin_hash in F1, F2.
-    destruct (c_kind c1) as [a|a| |a|]; try discriminate; injection F1 as ->;
-      destruct (c_kind c2) as [b|b| |b|]; try discriminate; injection F2 as ->; try congruence.
-    + specialize (A2 _ V1). specialize (A1 _ V2). sl_crush.
-    + specialize (A1 _ V1). specialize (A2 _ V2). sl_crush.
-  - intros c h H1 Z F1. destruct (Hv c H1) as [[A1 A2 _ _ _ _ A7] V1]. specialize (A7 Z). unfold fin_hash in F1.
-    destruct (c_kind c) as [a|a| |a|]; try discriminate; injection F1 as ->.
-    + specialize (A2 _ V1). sl_crush.
-    + specialize (A1 _ V1). sl_crush.
-  - intros c h H1 Kc. destruct (Hv c H1) as [[A1 _ _ _ _ _ _] V1]. rewrite Kc in V1. specialize (A1 _ V1).
-    apply (LINK_dec _ _ _ (inv_link _ I) (Hfirst c H1)). destruct A1 as [-> | ->]; reflexivity.
-  - intros c1 c2 h H1 H2 Es K1 K2. destruct (Hv c1 H1) as [[_ A2 A3 _ _ _ _] V1]. destruct (Hv c2 H2) as [_ V2].
+    rewrite <- Es in S2, V2. clear S2 S1. unfold fin_hash in F1, F2.
+    destruct (c_kind c1) as [a|a| |a|] eqn:K1; try discriminate; injection F1 as ->;
+      destruct (c_kind c2) as [b|b| |b|] eqn:K2; try discriminate; injection F2 as ->; try congruence; exfalso.
+    + pose proof (eq_trans Es (FFatF c2 h2 H2 K2)) as E1. rewrite E1 in V2.
+      rewrite (NoFF c1 h1 H1 K1 E1) in V2. discriminate.
+    + pose proof (FFatF c1 h1 H1 K1) as E1. rewrite E1 in V1.
+      rewrite (NoFF c2 h2 H2 K2 (eq_trans (eq_sym Es) E1)) in V1. discriminate.
+  - intros c h H1 Z F1. destruct (Hv c H1) as [[A1 A2 _ _ _ _] V1]. unfold fin_hash in F1.
+    pose proof (Hle c H1) as Hf0. pose proof (lk_fh _ _ _ (inv_link _ I)) as Fh.
+    assert (Ez : finalized_slot p = 0) by lia.
+    destruct (lk_zero _ _ _ (inv_link _ I)) as [Z0|[Z0|Z0]]; [unfold finalized_slot in *; lia | | | unfold finalized_slot in *; lia];
+      rewrite Z in *.
+    + destruct (c_kind c) as [a|a| |a|] eqn:Kc; try discriminate; injection F1 as ->.
+      * specialize (A2 _ V1). destruct A2 as [E|[E|[[h' [E _]]|[[h' E]|E]]]]; rewrite Z0 in E; congruence.
+      * specialize (A1 _ V1). destruct A1 as [E|E]; rewrite Z0 in E; congruence.
+    + destruct (c_kind c) as [a|a| |a|] eqn:Kc; try discriminate; injection F1 as ->.
+      * specialize (A2 _ V1). destruct A2 as [E|[E|[[h' [E Ef]]|[[h' E]|E]]]]; rewrite Z0 in E; try congruence.
+        exfalso. rewrite <- Ez in Ef at 1. rewrite (NoFF c h H1 Kc (eq_trans Z (eq_sym Ez))) in Ef. discriminate.
+      * specialize (A1 _ V1). destruct A1 as [E|E]; rewrite Z0 in E; congruence.
+  - intros c h H1 Kc. rewrite (FFatF c h H1 Kc). lia.
+  - intros c1 c2 h H1 H2 Es K1 K2. destruct (Hv c1 H1) as [[_ A2 A3 _ _ _] V1]. destruct (Hv c2 H2) as [_ V2].
     rewrite <- Es in V2. rewrite K1 in V1. rewrite K2 in V2. specialize (A2 _ V2). specialize (A3 V1).
     apply (LINK_dec _ _ _ (inv_link _ I) (Hfirst c1 H1)).
-    destruct A2 as [E|[E|[E|E]]]; rewrite E in *; try reflexivity; destruct A3 as [E'|[[x E']|[x E']]]; discriminate.
+    destruct A2 as [E|[E|[[h' [E _]]|[[h' E]|E]]]]; rewrite E in *; try reflexivity; destruct A3 as [E'|[[x E']|[x E']]]; discriminate.
 Qed.
 
 (* what a pool holding only certificates from such a set can have finalized *)
@@ -1549,7 +1592,7 @@ Lemma recv_ft_ok f X q c :
   end.
 Proof.
   intros [Xc Xz _ _] [K W L] Pl Src Hc Hf Dup. set (s := c_slot c) in *.
-  pose proof (lk_slot _ _ _ L s Hf) as Sl. unfold slot_link_ss in Sl. destruct Sl as [A1 A2 A3 A4 A5 A6 A7].
+  pose proof (lk_slot _ _ _ L s Hf) as Sl. unfold slot_link_ss in Sl. destruct Sl as [A1 A2 A3 A4 A5 A6].
   destruct (W s) as (Kd & Sf & _). destruct (view_has_cert _ Kd) as (H1 & H2 & H3).
   assert (Hff : forall h0, vff (p_ss q s) = Some h0 -> exists c', X c' /\ c_slot c' = s /\ fin_hash c' = Some h0).
   { intros h0 E. destruct (H1 h0 E) as (c' & Ec & Kc). assert (Hin : In c' (certs_of_slot (p_ss q s))) by (apply in_certs_of_slot; auto).
@@ -1677,7 +1720,7 @@ Proof.
     destruct (bundle_final_certs p I Nz) as (fc & FP & Hfc). fold f in FP.
     destruct (inv_cwf _ Iq f) as [Kd _]. destruct (class_view _ Kd) as (V1 & V2 & V3).
     pose proof (lk_slot _ _ _ (inv_link _ Iq) f ltac:(unfold first_unpruned in *; lia)) as Sl. unfold slot_link_ss in Sl.
-    destruct Sl as [A1 A2 A3 _ _ _ _].
+    destruct Sl as [A1 A2 A3 _ _ _].
     assert (Dec : is_decided (st_of (p_ft q) f) = true -> f <= finalized_slot q).
     { apply (LINK_dec _ _ _ (inv_link _ Iq)). unfold first_unpruned in *. lia. }
     destruct FP as [(c & h & -> & Kc & Sc)|(cf & cn & h & -> & Kf & Sf & Kn & Sn)].
@@ -1686,7 +1729,7 @@ Proof.
     - pose proof (Held cf (Hfc cf (or_introl eq_refl))) as Hf. rewrite Kf, Sf in Hf. cbn [class_of has_class] in Hf.
       pose proof (Held cn (Hfc cn (or_intror (or_introl eq_refl)))) as Hn. rewrite Kn, Sn in Hn. cbn [class_of has_class] in Hn.
       destruct (V2 Hn) as [h' Hv]. specialize (A2 h' Hv). specialize (A3 (V3 Hf)). apply Dec.
-      destruct A2 as [E|[E|[E|E]]]; rewrite E in *; try reflexivity; destruct A3 as [E'|[[x E']|[x E']]]; discriminate. }
+      destruct A2 as [E|[E|[[h2 [E _]]|[[h2 E]|E]]]]; rewrite E in *; try reflexivity; destruct A3 as [E'|[[x E']|[x E']]]; discriminate. }
   split; [exact Ok|]. split; [fold f; lia|]. split; [exact Src | exact Held].
 Qed.
 
